@@ -201,6 +201,17 @@ PROPS['C08'] = dict(
     level_note='Partial: panic sites classified unverified are listed in the evidence and not proved; grammar invariants (each node has a contiguous leaf, identifier present) are preconditions discharged by gvc.faithful rules, not by Verus; stack exhaustion by nesting is outside the claim; a new unclassified panic site makes the run undecided.',
     not_covered=['RefCell borrows of the thread-locals', 'the nom parsers themselves (no panics assumed in nom)', 'Display of RefNode (generated by build.rs)'],
 )
+PROPS['C19'] = dict(
+    title='thread independence',
+    units=[],
+    engines=[dict(module='gvc.engine', args=dict(analyses=('shared',)))],
+    shims=['A-packrat'],
+    design='DESIGN.md 3/C19',
+    technique='ownership/frame condition over the real sources of all six crates (no state reachable from two threads), decided by the generator. No reasoning about interleavings: with nothing shared there is nothing to interleave on',
+    level_text='Every piece of state a preprocess or parse call can read or write besides its arguments and the file system is thread-local: the only statics of the six crates are the three thread_local! tables of sv-parser-parser (memo table, directive stack, keyword-version stack); there is no static mut, no static with interior mutability, no lazy/once-initialised global, no process-global mutator (env::set_var, set_current_dir), no hand-written Send/Sync, no thread creation, and the unsafe blocks are the four committed ones, which touch their arguments only. Under Rust\'s rules (thread_local! gives each thread its own instance; safe code cannot alias across threads without Sync state) calls on different threads share nothing, so each returns what it returns alone.',
+    level_note='This is the frame condition that makes interleavings irrelevant, not a proof about interleavings (neither Verus without its concurrency tokens nor Kani can give one). Assumed: the thread-local implementation of std, that nom_packrat::storage! and nom-recursive keep their tables thread-local (A-packrat, dependencies outside /repo), that the file system is not changed by another thread during a call. A once-initialised global or a new unsafe block makes the check undecided, not violated.',
+    not_covered=['interleavings themselves', 'state inside dependencies (nom-packrat, nom-recursive, nom-tracable)', 'concurrent modification of the files being read'],
+)
 KANI = dict(module='vx.kanieng', tier='thorough')
 PROPS['C03']['engines'] = [KANI]
 PROPS['C18']['engines'] = [REPLAY]
@@ -212,5 +223,4 @@ NOT_APPLICABLE = {
     'C02': 'the oracle is the set of Annex A sentences and their production labels; a contract able to state it would restate the 1.3k-production grammar, and PEG ordered choice over it is not a per-function property (DESIGN.md 4)',
     'C12': 'a relation between two parses of two different inputs over every production and trivia assignment (hyperproperty); per-function contracts do not compose to it without a proof about the whole PEG (DESIGN.md 4)',
     'C14': 'statements about the language accepted by the whole grammar and about nom-greedyerror deepest-failure bookkeeping, neither is a contract of a function within reach (DESIGN.md 4)',
-    'C19': 'neither Verus (without concurrency tokens the code does not use) nor Kani (no threads) reasons about interleavings; a scan for thread_local is not a proof (DESIGN.md 4)',
 }
